@@ -388,9 +388,13 @@ class X12LoopDataNode(X12DataNode):
         if x12_loop_node is None:
             raise errors.X12PathError('The segment %s is not a member of loop %s' %
                                       (seg_data.__repr__(), self.id))
+        # (before anything is added: the segment must have a place right in that loop)
+        x12_seg_node = x12_loop_node.get_child_seg_node(seg_data)
+        if x12_seg_node is None:
+            raise errors.X12PathError('The segment %s does not start loop %s' %
+                                      (seg_data.__repr__(), x12_loop_node.id))
         new_data_loop = self._add_loop_node(x12_loop_node)
         # Now, add the segment
-        x12_seg_node = new_data_loop.x12_map_node.get_child_seg_node(seg_data)
         new_data_node = X12SegmentDataNode(
             x12_seg_node, seg_data, new_data_loop)
         new_data_loop.add_node(new_data_node)
